@@ -5,6 +5,22 @@ Correspondence: the Lean `assemble` (folds proved in Pygom/Props/C01.lean to equ
 terms and V·a + pure) against the real pygom objects, symbolically (exact point evaluation, 50 digits)
 and numerically (compiled evaluators).  Direct oracle (no Lean): the harness's own interpreter computes
 Σ rate × net + ODE terms from the abstract process set.
+
+History / input-form / second-instance probes (all fixed by the case JSON, all judged by the same direct oracle).  The
+Lean `assemble` is a pure function of the definition and an evaluator is a function of (definition, parameter values,
+x, t) only, so each of these is a statement of the model which the real code may break without any single call
+compared on its own being wrong:
+ * every result of ode / vMat / eventRateVector / pureOdeVector is KEPT as returned and judged a second time after all
+   later calls (4 points, parameter re-assignment, second instance, deep copy) - returned-array aliasing; ODE = V.a + pure
+   is checked on the kept arrays; afterwards the caller overwrites the arrays it was given and evaluates again;
+ * x as list / tuple / ndarray, float and (integer-valued point, some states exactly 0) int / int32 / int64; t as float /
+   int / numpy scalar; parameters as list / tuple / ndarray / dict / (name, value) pairs; arguments checked unmodified;
+ * same (x, t) after `model.parameters` was re-assigned, and again after the first values were restored;
+ * a second live instance under the same names (state declaration reversed, parameter declaration permuted, derived
+   parameter redefined, last event entered incrementally), built IN STAGES - constructor, all evaluators called, then one
+   incremental operation at a time with the first instance evaluating in between, every intermediate model judged against
+   the spec read so far - then both instances evaluated alternately, the first one without re-assigning its parameters;
+ * copy.deepcopy of the evaluated model as a third instance with other parameter values; the twin ode_T(t, x).
 """
 import copy
 import json
@@ -29,7 +45,10 @@ BUDGET = {"quick": {"models": 160, "cython": 3, "malformed": 24},
           "thorough": {"models": 3000, "cython": 40, "malformed": 300}}
 RULE = ("random model definitions (1-5 states incl. range-style names, 1-5 params, 0-5 events of 1-3 B/D/T transitions, numeric "
         "and symbolic magnitudes, linear/mass-action/saturating/exponential/time-periodic rates, explicit ODE terms, derived "
-        "parameters, every API route) + a malformed stream; a case is non-trivial when it has >=1 event and a non-zero ODE value")
+        "parameters, every API route) + a malformed stream; per model 4 points (one integer valued with zero states) in varied "
+        "container / dtype forms, all evaluator results kept and re-judged after the later calls, parameter re-assignment and "
+        "restoration at a fixed (x,t), a permuted / redefined second instance built in stages and evaluated alternately, a deep "
+        "copy; a case is non-trivial when it has >=1 event and a non-zero ODE value")
 ASSUMPTIONS = ["sympy parser/subs and lambdify/autowrap are translation-validated per case, not proved",
                "identity of expressions is decided by exact evaluation at 3 random rational points (50 digits)"]
 TRUSTED = ["harness generator, AST printer (exprs.to_str) and interpreter (exprs.ev)", "Lean driver JSON codec"]
@@ -90,7 +109,7 @@ def probe_for(r, spec, meta, pts):
 
 def points_for(r, meta, n=N_POINTS):
     pts = [gen.rand_point(r, meta) for _ in range(n - 1)]
-    pts.append(gen.rand_point(r, meta, integer=True))
+    pts.append(gen.rand_point(r, meta, integer=True, zeros=True))
     return pts
 
 
@@ -138,6 +157,7 @@ class Session(object):
         self.nonzero = False
         self.model = None
         self.dead = False
+        self.cur = {}
         backend = case.get("backend", "lambda")
         n_then = len(spec.get("then", []))
         staged = (partner is not None and n_then > 0 and backend == "lambda"
@@ -173,6 +193,7 @@ class Session(object):
         x = fl(env, states); t = float(env["t"])
         try:
             m.parameters = fl(env, params)
+            self.cur = {p: env[p] for p in params}
         except Exception:
             self.tags.append("touch:parameters-not-settable")
             return
@@ -286,6 +307,7 @@ class Session(object):
                 th = as_params(env, params, form["p"])
                 fth = freeze(th)
                 model.parameters = th
+                self.cur = {p: env[p] for p in params}
                 tags.append("p:" + form["p"])
                 if freeze(th) != fth:
                     viol.append({"what": self.who + "the object assigned to model.parameters was modified", "signature": "input-modified:parameters:" + form["p"],
@@ -320,6 +342,46 @@ class Session(object):
         self.steps.append(st)
         self.judge(st, vals, "")
         return len(mism) + len(viol) == n0
+
+    def keep_params(self, env):
+        """(x, t) of `env` with the parameter values this instance currently holds"""
+        e = dict(env); e.update(self.cur)
+        return e
+
+    def clone(self):
+        """copy.deepcopy of the configured, already evaluated model as one more live instance (same definition, so the
+        same Lean response and the same oracle)"""
+        C = object.__new__(Session)
+        C.__dict__.update(self.__dict__)
+        C.tags, C.mism, C.viol, C.kept, C.steps = [], [], [], Kept(), []
+        C.who = "copy.deepcopy of the model: "
+        try:
+            C.model = copy.deepcopy(self.model)
+            C.symbolic()
+        except Exception as exc:
+            self.tags.append("deepcopy-raised:%s" % type(exc).__name__)
+            return None
+        C.cur = dict(self.cur)
+        return C
+
+    def twins(self, env, label):
+        """the solver-facing twin ode_T(t, x) at a point already judged"""
+        if self.dead or self.mism or self.viol:
+            return
+        try:
+            f_o = net_oracle(self.meta, self.spec, env)[0]
+        except E.Undefined:
+            return
+        try:
+            got = np.array(self.model.ode_T(float(env["t"]), fl(env, self.states)), float).ravel()
+        except Exception as exc:
+            self.viol.append({"what": self.who + "ode_T raised %s: %s" % (type(exc).__name__, str(exc)[:200]), "signature": "evaluator-raise:ode_T:%s" % type(exc).__name__,
+                              "detail": ""})
+            return
+        self.tags.append("ode_T")
+        if not vec_close(got, f_o):
+            self.viol.append({"what": self.who + "[%s] ode_T(t,x) != sum rate*net + explicit terms" % label, "signature": "ode_T:" + sig(self.meta, "ode"),
+                              "detail": "ode_T=%s expected=%s" % (got.tolist(), [mpf_s(v) for v in f_o])})
 
     def judge(self, st, vals, kind):
         """`kind` = "" for the copies taken at the time of the call (model comparison + direct oracle),
@@ -397,7 +459,7 @@ class Session(object):
         self.step(env, form, label)
 
 
-HISTORY_LABELS = ("reassigned", "restored", "after-sibling", "after-caller-wrote-into-results")
+HISTORY_LABELS = ("reassigned", "restored", "after-sibling", "after-copy", "copy-after-original", "after-caller-wrote-into-results")
 
 
 def run_case(case):
@@ -437,13 +499,27 @@ def run_case(case):
             if B.open():
                 okB = B.step(pts[0], forms[0], "point0", symbolic=True)
                 # the first instance again, WITHOUT touching its parameters (they are still those of point 0)
-                env_as = dict(pts[1]); env_as.update({p: pts[0][p] for p in A.params})
-                okA = A.step(env_as, forms[1], "after-sibling", set_params=False) if okB else False
+                okA = A.step(A.keep_params(pts[1]), forms[1], "after-sibling", set_params=False) if okB else False
                 if okA and okB:
                     B.step(pts[1], forms[1], "point1") and A.step(pts[2 % len(pts)], forms[2 % len(pts)], "after-sibling")
+    C = None
+    if ok and probe and not (A.mism or A.viol) and (B is None or not (B.mism or B.viol)):
+        # a deep copy of the evaluated model is one more live instance: it gets other parameter values, the original is
+        # evaluated again without being touched, and the other way round
+        A.twins(A.keep_params(pts[1]), "twin")
+        C = A.clone()
+        if C is not None:
+            A.tags.append("deepcopy_checked")
+            e2 = dict(pts[1]); e2.update({p: pts[2 % len(pts)][p] for p in A.params})
+            C.step(e2, forms[1], "copy-point1") and A.step(A.keep_params(pts[0]), forms[0], "after-copy", set_params=False) \
+                and C.step(C.keep_params(pts[0]), forms[0], "copy-after-original", set_params=False)
     A.finish()
     if B is not None and not B.dead:
         B.finish()
+    if C is not None:
+        C.finish()
+        A.viol += [dict(v, signature="deepcopy:" + v.get("signature", "")) for v in C.viol]
+        A.mism += [dict(m_, what="deepcopy:" + m_["what"]) for m_ in C.mism]
     if not (A.mism or A.viol) and (B is None or not (B.mism or B.viol)):
         A.after_scribble(pts[1 % len(pts)], forms[1 % len(pts)], "after-caller-wrote-into-results")
     r = {"nontrivial": bool(A.nE >= 1 and A.nonzero), "mismatches": A.mism, "violations": A.viol, "tags": A.tags,
